@@ -77,11 +77,19 @@ def userTypeOK (S : Schema) (td : TypeDef) : Bool :=
   && (td.kind != .union || td.members == possibleObjects S td)
   && ((td.kind != .union && td.kind != .interface) || (possibleObjects S td).all (isUserType S))
 
+def found (S : Schema) (t : TypeRef) : Bool := (S.type? t.name).isSome
+
+/-- every name a definition mentions is a type of the schema (gqlparser's loader guarantees it) -/
+def refsOK (S : Schema) (td : TypeDef) : Bool :=
+  td.fields.all (fun f => found S f.type && f.args.all (fun a => found S a.type))
+  && td.interfaces.all (fun i => (S.type? i).isSome)
+
 def typeOK (S : Schema) (td : TypeDef) : Bool :=
-  if Gen.Remote.skipTypeNames.contains td.name then td.builtIn else !td.builtIn && userTypeOK S td
+  refsOK S td && (if Gen.Remote.skipTypeNames.contains td.name then td.builtIn else !td.builtIn && userTypeOK S td)
 
 def directiveOK (S : Schema) (d : DirDef) : Bool :=
-  Gen.Remote.skipDirectiveNames.contains d.name || (d.name != "" && !d.repeatable && d.args.all (argOK S))
+  d.args.all (fun a => found S a.type)
+  && (Gen.Remote.skipDirectiveNames.contains d.name || (d.name != "" && !d.repeatable && d.args.all (argOK S)))
 
 def rootOK (S : Schema) : Option String → Bool
   | none => true
